@@ -888,10 +888,11 @@ class _GenClose(BaseException):
 _THREAD_STACK_SET = [False]
 
 
-class LazyGen:
-    """A generator function's body, run lazily: it advances to the next `yield` only when the consumer asks for the next
-    value (a `return`, an exception or the end of the body ends the iteration), as in CPython.  The body runs on its own
-    thread purely as a coroutine - exactly one of consumer and body is ever running."""
+class _GenCore:
+    """State and coroutine thread of one generator.  The thread refers to this object only - never to the `LazyGen` handle the
+    consumer holds - so that a handle dropped before the body has finished is collected, its `__del__` closes the core, the
+    body unwinds (GeneratorExit semantics) and the thread ends.  (A thread that referred to the handle kept every abandoned
+    generator - and one 64 MB-stack thread each - alive for the rest of the run.)"""
 
     def __init__(self, run_body):
         import threading
@@ -914,9 +915,6 @@ class LazyGen:
         self._sent = None
         self._return = None
 
-    def __iter__(self):
-        return self
-
     def _target(self):
         try:
             self._return = self._run_body(self._yield)
@@ -926,6 +924,7 @@ class LazyGen:
             self._exc = e
         finally:
             self._finished = True
+            self._run_body = None
             self._to_caller.release()
 
     def _yield(self, v):
@@ -941,14 +940,12 @@ class LazyGen:
         return sent  # the value of the `yield` expression: what generator.send() handed in, None after next()
 
     def send(self, value):
-        """generator.send(value): resume the body, the suspended `yield` expression evaluates to `value`."""
         if self._thread is None and value is not None and not self._finished:
             raise TypeError("can't send non-None value to a just-started generator")
         self._sent = value
-        return self.__next__()
+        return self.next()
 
     def throw(self, exc):
-        """generator.throw(exc): resume the body with `exc` raised at the `yield` it is suspended in."""
         if self._thread is None or self._finished:
             self._finished = True
             raise exc
@@ -962,7 +959,7 @@ class LazyGen:
             raise StopIteration(self._return)
         return self._value
 
-    def __next__(self):
+    def next(self):
         import threading
 
         if self._finished:
@@ -986,10 +983,43 @@ class LazyGen:
             self._to_gen.release()
             self._to_caller.acquire()
         self._finished = True
+        self._run_body = None
+
+
+class LazyGen:
+    """A generator function's body, run lazily: it advances to the next `yield` only when the consumer asks for the next
+    value (a `return`, an exception or the end of the body ends the iteration), as in CPython.  The body runs on its own
+    thread purely as a coroutine - exactly one of consumer and body is ever running."""
+
+    __slots__ = ("_core", "__weakref__")
+
+    def __init__(self, run_body):
+        self._core = _GenCore(run_body)
+
+    def __iter__(self):
+        return self
+
+    def send(self, value):
+        """generator.send(value): resume the body, the suspended `yield` expression evaluates to `value`."""
+        return self._core.send(value)
+
+    def throw(self, exc):
+        """generator.throw(exc): resume the body with `exc` raised at the `yield` it is suspended in."""
+        return self._core.throw(exc)
+
+    def __next__(self):
+        return self._core.next()
+
+    def close(self):
+        self._core.close()
 
     def __del__(self):
+        import sys
+
+        if sys.is_finalizing():
+            return  # daemon threads no longer run: waiting for the body to unwind would never end
         try:
-            self.close()
+            self._core.close()
         except Exception:
             pass
 
